@@ -376,7 +376,16 @@ typedef struct {
    long violations;
 } stats;
 static stats S;
-static int g_tie, g_verbose;
+static int g_tie, g_verbose, g_metrics;
+#ifndef C20_GAP_MAX_DB
+#define C20_GAP_MAX_DB (-45.0)
+#endif
+#ifndef C20_ACT_MIN_DB
+#define C20_ACT_MIN_DB (-12.0)
+#endif
+#ifndef C20_ACT_MAX_DB
+#define C20_ACT_MAX_DB (6.0)
+#endif
 static char **g_ovr; static int g_novr;
 
 static char g_input[256];     /* how to re-run the current run: "run <subseed> <long>" or "scenario <family> <idx> …" */
@@ -713,11 +722,13 @@ static void do_run(uint64_t subseed, int tier_long, const runcfg *preset)
          }
          if (gap_n > 0 && !c.noise_gap) {
             double db = gap_e <= 1e-20 ? -200 : 10 * log10(gap_e / gap_n);
-            if (db > -45.0) witness("decoder_gap_level", subseed, -1, "decoded level during DTX on digital silence is %.1f dBFS", db);
+            if (g_metrics) printf("# metric gap_db=%.2f n=%ld vary=%d\n", db, gap_n, c.vary);
+            if (db > C20_GAP_MAX_DB) witness("decoder_gap_level", subseed, -1, "decoded level during DTX on digital silence is %.1f dBFS (calibrated limit %.1f)", db, (double)C20_GAP_MAX_DB);
          }
          if (act_n > 4L * c.fs / 10 && in_e > 0 && (c.ubr < 0 || c.ubr >= 12000) && c.out_bytes >= 100) {
             double d = 10 * log10((act_e + 1e-12) / (in_e + 1e-12));
-            if (d < -12.0 || d > 6.0) witness("decoder_active_level", subseed, -1, "decoded/input energy over active packets is %.1f dB", d);
+            if (g_metrics) printf("# metric act_db=%.2f n=%ld vary=%d app=%d q=%d\n", d, act_n, c.vary, c.app, c.q);
+            if (d < C20_ACT_MIN_DB || d > C20_ACT_MAX_DB) witness("decoder_active_level", subseed, -1, "decoded/input energy over active packets is %.1f dB (calibrated range %.1f..%.1f)", d, (double)C20_ACT_MIN_DB, (double)C20_ACT_MAX_DB);
          }
       }
       free(out);
@@ -738,6 +749,7 @@ int main(int argc, char **argv)
       int tier_long = argc >= 5 ? atoi(argv[4]) : 0;
       vrng top; top.s = seed; top.s = vnext(&top) ^ (argv[1][0] == 't' ? 0x746965ULL : 0x736561726368ULL);
       g_tie = !strcmp(argv[1], "tie");
+      g_metrics = argc >= 6 && !strcmp(argv[5], "metrics");
       for (i = 0; i < n; i++) {
          uint64_t sub = vnext(&top);
          long v0 = S.violations;
